@@ -466,41 +466,72 @@ def given_uuids(case):
 
 def oracle(case, real):
     """the statement on the real output.  Returns list of (what, detail); a detail with
-    key 'finding' marks a discrepancy that exactly matches a known finding's pattern."""
+    key 'finding' marks a discrepancy that exactly matches a known finding's pattern.
+
+    Library reading included: `LOGGER.critical` only logs, so a container may be rendered
+    although rows were rejected.  Then the rendered events / triggers must be EXACTLY the
+    rows that were not rejected, in order, one each, with that row's fields and pairwise
+    distinct uuids; every statement-invalid row must have been rejected by a record naming
+    it; no record may name a valid row."""
     fails = []
-    rejected = real["exc"] is not None or bool(real["recs"])
+    recs = [classify_record(r) for r in real["recs"]]
+    rejected = real["exc"] is not None or bool(recs)
+    sheets = []   # (item, label, [class per row])
     classes = []
     for it in case["items"]:
         if it["kind"] == "campaign":
-            classes += [camp_row_class(r) for r in it["rows"]]
+            cl = [camp_row_class(r) for r in it["rows"]]
+            sheets.append((it, it.get("new_name") or it["sheet"], cl))
         elif it["kind"] == "triggers":
-            classes += [trig_row_class(r) for r in it["rows"]]
-    if "invalid" in classes:
-        if not rejected:
-            fails.append(("a sheet with a row the statement calls invalid was accepted without any error", {}))
+            cl = [trig_row_class(r) for r in it["rows"]]
+            sheets.append((it, it["sheet"], cl))
+        else:
+            continue
+        classes += cl
+    if "invalid" in classes and not rejected:
+        fails.append(("a sheet with a row the statement calls invalid was accepted without any error", {}))
         return fails
-    if rejected:
-        if "bad" not in classes and not case.get("undefined_trigger_flow"):
-            fails.append(("a sheet whose rows are all valid was rejected", {"exc": real["exc"], "records": [classify_record(r) for r in real["recs"]][:3]}))
+    if rejected and "invalid" not in classes and "bad" not in classes and not case.get("undefined_trigger_flow"):
+        fails.append(("a sheet whose rows are all valid was rejected", {"exc": real["exc"], "records": recs[:3]}))
         return fails
+    if real["exc"] is not None or real["out"] is None:
+        return fails      # the run was aborted: nothing was rendered
     out = real["out"]
     if case.get("undefined_trigger_flow") == "nowhere":
         fails.append(("a trigger for a flow that exists nowhere was accepted", {}))
         return fails
-    # accepted: row-wise
-    camps = [it for it in case["items"] if it["kind"] == "campaign"]
+    # ---- a container was rendered (possibly after CRITICAL records): which rows were rejected?
+    named = {(sheet, row) for _, sheet, row, _ in recs if sheet is not None and row is not None}
+    kept = {}     # label -> [(k, row)] rows that must have been compiled
+    for it, label, cl in sheets:
+        kept[label] = []
+        for k, (r, c) in enumerate(zip(it["rows"], cl)):
+            hit = (label, k) in named
+            if c == "invalid" and not hit:
+                fails.append(("a row the statement calls invalid was not rejected (no error names it) although a container was rendered",
+                              {"sheet": it["sheet"], "row": k, "cells": r["cells"], "records": recs[:5]}))
+            if c == "ok" and hit:
+                fails.append(("a valid row was rejected", {"sheet": it["sheet"], "row": k, "cells": r["cells"],
+                                                            "records": [x for x in recs if x[1] == label and x[2] == k]}))
+            if not hit and c != "invalid":
+                kept[label].append((k, r))      # 'ok', or 'bad' that nobody complained about → must be there as written
+    camps = [(it, label) for it, label, _ in sheets if it["kind"] == "campaign"]
     if len(out["campaigns"]) != len(camps):
         fails.append(("number of campaigns differs from the number of campaign sheets", {"got": len(out["campaigns"]), "expected": len(camps)}))
         return fails
-    for it, c in zip(camps, out["campaigns"]):
-        name = it.get("new_name") or it["sheet"]
-        if c.get("name") != name or (c.get("group") or {}).get("name") != it["group"].strip():
-            fails.append(("campaign name / group differ from the index row", {"got": [c.get("name"), c.get("group")], "expected": [name, it["group"]]}))
+    for (it, label), c in zip(camps, out["campaigns"]):
+        if c.get("name") != label or (c.get("group") or {}).get("name") != it["group"].strip():
+            fails.append(("campaign name / group differ from the index row", {"got": [c.get("name"), c.get("group")], "expected": [label, it["group"]]}))
         evs = c.get("events", [])
-        if len(evs) != len(it["rows"]):
-            fails.append(("campaign does not have exactly one event per row", {"sheet": it["sheet"], "rows": len(it["rows"]), "events": len(evs)}))
+        rows = kept[label]
+        if len(evs) != len(rows):
+            what = ("campaign does not have exactly one event per row" if len(rows) == len(it["rows"]) else
+                    "campaign does not have exactly one event per non-rejected row (a rejected row must produce nothing)")
+            fails.append((what, {"sheet": it["sheet"], "rows": len(it["rows"]), "rejected_rows": sorted(k for (l, k) in named if l == label),
+                                 "expected_events": len(rows), "events": len(evs),
+                                 "event_uuids": [e.get("uuid") for e in evs]}))
             continue
-        for k, (r, ev) in enumerate(zip(it["rows"], evs)):
+        for (k, r), ev in zip(rows, evs):
             try:
                 exp = expected_event(r)
             except ValueError:
@@ -516,14 +547,18 @@ def oracle(case, real):
                         and {**got, "message": exp["message"]} == exp):
                     d["finding"] = "F-C19-a"
                 fails.append(("event differs from its row (row-for-row compilation)", d))
-    exp_tr = [r for it in case["items"] if it["kind"] == "triggers" for r in it["rows"]]
+    exp_tr = [(it["sheet"], k, r) for it, label, _ in sheets if it["kind"] == "triggers" for k, r in kept[label]]
+    n_tr_rows = sum(len(it["rows"]) for it, _, _ in sheets if it["kind"] == "triggers")
     if len(out["triggers"]) != len(exp_tr):
-        fails.append(("triggers array does not have exactly one trigger per row", {"rows": len(exp_tr), "triggers": len(out["triggers"])}))
+        what = ("triggers array does not have exactly one trigger per row" if len(exp_tr) == n_tr_rows else
+                "triggers array does not have exactly one trigger per non-rejected row (a rejected row must produce nothing)")
+        fails.append((what, {"rows": n_tr_rows, "rejected_rows": sorted([l, k] for (l, k) in named if any(l == lab and it["kind"] == "triggers" for it, lab, _ in sheets)),
+                             "expected_triggers": len(exp_tr), "triggers": len(out["triggers"])}))
     else:
-        for k, (r, t) in enumerate(zip(exp_tr, out["triggers"])):
+        for (sheet, k, r), t in zip(exp_tr, out["triggers"]):
             exp, got = expected_trigger(r), observed_trigger(t)
             if got != exp:
-                fails.append(("trigger differs from its row (row-for-row compilation)", {"row": k, "cells": r["cells"], "got": got, "expected": exp}))
+                fails.append(("trigger differs from its row (row-for-row compilation)", {"sheet": sheet, "row": k, "cells": r["cells"], "got": got, "expected": exp}))
     for p in refs_problems(out, given_uuids(case)):
         fails.append(("references do not resolve one-name-one-uuid: " + p, {}))
     if case.get("undefined_trigger_flow") == "referenced":
@@ -847,6 +882,22 @@ def enum_sweep_cases(start_id):
     cases.append(trig({**base_t, "keywords": ""}, {"keywords": []}, "sweep-invalid"))
     cases.append(trig({**base_t, "keywords": ";x"}, {"keywords": ["", "x"]}, "sweep-invalid"))
     cases.append(trig({"type": "K", "flow": "f"}, {}, "sweep-invalid"))
+    # library reading: an invalid row between two valid rows is rejected and produces NOTHING
+    # (2 events / triggers, not 3; no uuid twice); same with the invalid row first and last
+    v1 = dict(base_c)
+    v2 = {**base_c, "offset": "3", "unit": "W", "event_type": "F", "message": "", "start_mode": "S"}
+    bad_c = {**base_c, "offset": "2", "message": ""}
+    for rows in ([v1, bad_c, v2], [bad_c, v1, v2], [v1, v2, bad_c], [v1, bad_c, bad_c, v2]):
+        c = camp(v1, "sweep-mid-invalid")
+        c["items"][1]["rows"] = [{"cells": dict(r)} for r in rows]
+        cases.append(c)
+    t1 = {**base_t, "keywords": "hello", "match_type": "O"}
+    t2 = {**base_t, "type": "C", "keywords": ""}
+    bad_t = {**base_t, "keywords": ""}
+    for rows in ([t1, bad_t, t2], [bad_t, t1, t2], [t1, t2, bad_t], [t1, bad_t, bad_t, t2]):
+        c = trig(t1, {"keywords": ["hello"]}, "sweep-mid-invalid")
+        c["items"][1]["rows"] = [{"cells": dict(r), "lists": {"keywords": [r["keywords"]] if r["keywords"] else []}} for r in rows]
+        cases.append(c)
     # missing required columns → rejected (oracle only needs an error)
     for col in CAMP_REQUIRED:
         c = camp({k: v for k, v in base_c.items() if k != col}, "sweep-missing")
